@@ -64,7 +64,11 @@ def make(jobs: int = 16) -> tuple[bool, str, list[str]]:
     with open(os.path.join(env.COQ, "build.log"), "w") as f:
         f.write(out)
     failed = []
+    for m in re.finditer(r"\*\*\* \[Makefile:\d+: ([\w/]+)\.vo\] Error", out):
+        failed.append(m.group(1) + ".v")
     for v in coq_files():
+        if v in failed:
+            continue
         vo = os.path.join(env.COQ, v[:-2] + ".vo")
         src = os.path.join(env.COQ, v)
         if not os.path.exists(vo) or os.path.getmtime(vo) < os.path.getmtime(src):
@@ -177,13 +181,19 @@ def props_status(pid: str) -> dict:
                     done += 1
             res["discharged"] = done
     axioms = set()
-    for blk in re.finditer(r"Axioms:\n((?:.+\n)+?)(?=\S*\n?(?:Closed|Axioms:|\Z)|\Z)", out):
-        pass
+    in_block = False
     for line in out.splitlines():
-        m = re.match(r"^([A-Za-z_][\w.]*)\s*$", line.strip())
-        m2 = re.match(r"^([A-Za-z_][\w.]*)\s*:", line)
-        if m2 and not line.startswith(" "):
-            axioms.add(m2.group(1))
+        if line.strip() == "Axioms:":
+            in_block = True
+            continue
+        if in_block:
+            if line.startswith((" ", "\t")):
+                continue                      # continuation of a type
+            m = re.match(r"^([A-Za-z_][\w.']*)\s*(:.*)?$", line)
+            if m and m.group(1) not in ("Closed", "File", "Warning"):
+                axioms.add(m.group(1))
+            else:
+                in_block = False
     res["axioms"] = sorted(axioms)
     res["closed"] = out.count("Closed under the global context")
     return res
